@@ -194,6 +194,69 @@ pub fn regroup_strategy(max_nv: u8) -> impl Strategy<Value = Vec<Vec<Lit>>> {
         })
 }
 
+/// hundreds of clauses over 6..7 variables: a random set of assignments is excluded by blocking clauses, each
+/// repeated 1..12 times (some with one literal dropped, a few with a literal repeated), all in a scrambled order.
+/// The function stays non-trivial however many clauses there are (100..900; conjunction schemes that work in
+/// rounds, runs or blocks of a power of two see several of their thresholds), and losing any stretch of the clause
+/// list changes it.
+pub fn many_clauses_strategy() -> impl Strategy<Value = Vec<Vec<Lit>>> {
+    (6u8..=7, 1u8..=12)
+        .prop_flat_map(|(nv, maxrep)| {
+            let na = 1usize << nv;
+            (
+                Just(nv),
+                proptest::collection::vec(any::<bool>(), na),
+                proptest::collection::vec((1u8..=maxrep, any::<u8>(), 0..nv), na),
+                proptest::collection::vec(any::<u16>(), na * 12),
+            )
+        })
+        .prop_map(|(nv, kept, per, keys)| {
+            let mut out: Vec<Vec<Lit>> = Vec::new();
+            for a in 0..(1usize << nv) {
+                if kept[a] {
+                    continue;
+                }
+                let (rep, how, which) = per[a];
+                for r in 0..rep {
+                    let mut c: Vec<Lit> = (0..nv).map(|v| (v, (a >> v) & 1 == 0)).collect();
+                    if r == 1 && how < 40 && rep > 1 {
+                        // a wider sibling: excludes one more assignment only if that one is excluded as well
+                        if !kept[a ^ (1usize << which)] {
+                            c.remove(which as usize);
+                        }
+                    } else if r == 2 && how < 80 {
+                        c.push(c[which as usize]);
+                    }
+                    out.push(c);
+                }
+            }
+            let mut idx: Vec<usize> = (0..out.len()).collect();
+            idx.sort_by_key(|i| (keys[*i % keys.len()], *i));
+            idx.into_iter().map(|i| out[i].clone()).collect()
+        })
+}
+
+/// a few clauses of 100..700 literal occurrences: every variable occurs in one polarity only (so the clause is no
+/// tautology) in runs of 1..150 equal literals; a reader that loses a stretch of a long clause loses whole runs
+pub fn long_clauses_strategy() -> impl Strategy<Value = Vec<Vec<Lit>>> {
+    (3u8..=7)
+        .prop_flat_map(|nv| {
+            (
+                proptest::collection::vec(any::<bool>(), nv as usize),
+                proptest::collection::vec(proptest::collection::vec((0..nv, 1usize..=150), 2..=7), 1..=3),
+                proptest::collection::vec(proptest::collection::vec(lit_strategy(nv), 1..=3), 0..=3),
+            )
+        })
+        .prop_map(|(pol, long, short)| {
+            let mut out: Vec<Vec<Lit>> = long
+                .into_iter()
+                .map(|runs| runs.into_iter().flat_map(|(v, k)| std::iter::repeat((v, pol[v as usize])).take(k)).collect())
+                .collect();
+            out.extend(short);
+            out
+        })
+}
+
 /// the general CNF generator: n <= 7, 0..12 clauses of length 0..5, plus edge-case families
 pub fn cnf_strategy() -> BoxedStrategy<CnfCase> {
     prop_oneof![
